@@ -569,6 +569,15 @@ def bytes_of_items(items):
     return bytes(out)
 
 
+def native_compile_text(inputs):
+    """the compile_text kernel; a native crash (stack overflow abort) is a result, not an exception"""
+    from mirsym import driver
+    try:
+        return driver.NATIVE.run('compile_text', [dict(case={}, inputs=inputs)])[0]
+    except RuntimeError as e:
+        return dict(crash=True, message=str(e)[-300:])
+
+
 def compiled_program(source, optimize):
     """disk-cached (per repository source key and engine version) phase-1 result, cross-checked against the native build"""
     from mirsym import driver, cache as mcache
@@ -591,7 +600,10 @@ def compiled_program(source, optimize):
             pass
     res = compile_from_mir(source, optimize)
     res['source'], res['optimize'] = source, bool(optimize)
-    nat = driver.NATIVE.run('compile_text', [dict(case={}, inputs=dict(source=source, optimize=bool(optimize), args=[]))])[0]
+    nat = native_compile_text(dict(source=source, optimize=bool(optimize), args=[]))
+    if nat.get('crash') and res['end'] == 'bound':
+        # the native compiler overflows its stack and the run from MIR hits the call-depth bound: the compilation diverges
+        res['end'] = 'diverges'
     res['native_compiled'] = nat.get('compiled')
     res['native_err'] = nat.get('compile_err')
     res['native_symbols'] = nat.get('symbols')
@@ -685,6 +697,17 @@ TEMPLATES += [
     ('twin_functions', '(mod (X) {S} (defun ff (A) (+ A 1)) (defun gg (A) (+ A 1)) (c (ff X) (gg X)))', [('list', 'B')]),
 ]
 
+DIVERGING_23 = ('const_call_in_helper',)     # cl23+ compilation of these does not terminate (known finding)
+
+# shapes reported by the independent sub-agents as suspicious on the unmodified tree (see DESIGN.md §6/§7)
+TEMPLATES += [
+    ('inline_rest_missing', '(mod (X) {S} (defun-inline F (A B C) (list A B C)) (F 1 &rest X))', [('list', ('list', 'B', 'B'))]),
+    ('capture_let', '(mod (P) {S} (defun F ((@ pt (X Y))) (let ((Z (+ X 1))) (list Z Y pt))) (F P))', [('list', ('list', 'B', 'B'))]),
+    ('guarded_common_subexpression', '(mod (C D E) {S} (if C (c (f (r (f (r E)))) 1) (if D (c (f (r (f (r E)))) 2) 7)))', [('list', 'E', 'E', 'B'), ('list', 'B', 'E', ('list', 'B', ('list', 'B', 'B')))]),
+    ('quoted_code_shape', '(mod (X) {S} (defun F (X) (if 1 (q . ((2 (1 . 5) 1))) X)) (F X))', [('list', 'B')]),
+    ('const_call_in_helper', '(mod (L) {S} (defun H (A B) (+ A B)) (defun G (L) (- L (H 1 2))) (G L))', [('list', 'B')]),
+]
+
 TEMPLATES_23 = [
     ('defconst', '(mod (X) {S} (defconstant K 7) (defconst L (+ K 1)) (defun H (A) (+ A K L)) (H X))', [('list', 'B')]),
     ('assign', '(mod (X Y) {S} (defconstant K 7) (defun H (A) (assign B (+ A K) C (* B 2) (list A B C))) (H X))', [('list', 'B', 'B')]),
@@ -720,6 +743,8 @@ class CompileRun(Harness):
     def templates(self, tier):
         for name, src, specs in TEMPLATES:
             for opt in self.OPTIONS[tier]:
+                if name in DIVERGING_23 and opt[0] in ('cl23', 'cl23.1', 'cl24'):
+                    continue          # exhibited once, under C02 builds_agree (known finding)
                 if tier == 'quick' and opt[0] != 'cl21' and name not in self.QUICK_23:
                     continue          # the cl23 pipeline (CSE, de-inlining, strategy optimiser) costs minutes per program
                 yield name, src, specs, opt
@@ -839,7 +864,10 @@ class BuildsAgree(CompileRun):
     def cases(self, tier):
         for name, src, specs in TEMPLATES:
             for a, b in self.PAIRS[tier]:
-                if tier == 'quick' and 'cl23' in (a[0], b[0]) and name not in self.QUICK_23:
+                if name in DIVERGING_23:
+                    if (a, b) != (('cl21', False), ('cl23', False)):
+                        continue           # one pair is enough to exhibit the known finding; each attempt costs minutes
+                elif tier == 'quick' and 'cl23' in (a[0], b[0]) and name not in self.QUICK_23:
                     continue
                 for k in range(len(specs)):
                     yield dict(t=name, a=list(a), b=list(b), spec=k)
@@ -862,6 +890,9 @@ class BuildsAgree(CompileRun):
             cp = compiled_program(src, optimize)
             for k, v in cp.get('functions', {}).items():
                 eng.encoded.setdefault(k, v)
+            if cp['end'] == 'diverges':
+                progs.append(None)
+                continue
             if cp['end'] not in ('ok', 'err'):
                 raise Unsupported('compilation under mirsym ended as %s: %s' % (cp['end'], cp.get('msg', '')))
             if not cp['agrees']:
@@ -926,7 +957,14 @@ class BuildsAgree(CompileRun):
         got = [native.get('result', {}).get('ok'), native.get('result_b', {}).get('ok')]
         return got == predicted['res']
 
+    classes = {'cl23_constant_call_inside_a_helper': lambda case, inp: z3.BoolVal(case['t'] == 'const_call_in_helper')}
+
+    def run_native(self, items):
+        return [native_compile_text(it['inputs']) for it in items]
+
     def is_violation(self, case, j, native):
+        if native.get('crash'):
+            return True
         ra, rb = native.get('result', {}), native.get('result_b', {})
         if 'ok' in ra and 'ok' in rb and ra['ok'] != rb['ok']:
             return True
